@@ -501,7 +501,7 @@ int main (int argc, char **argv) {
   hx_boot (libdir, conf, 0);
   vx_count_name (0, "programs"); vx_count_name (1, "rejected"); vx_count_name (2, "probe_compiles"); vx_count_name (3, "nontrivial"); vx_count_name (4, "skipped_nul_in_pre_text");
 
-  snprintf (path, sizeof path, "%s/c02/probe.c", libdir);
+  snprintf (path, sizeof path, "%s/c02/%s", libdir, c02_maxlocals < 16 ? "probe6.c" : "probe.c");
   probe_text = (unsigned char *) slurp (path, &probe_len);
   if (!probe_text) { fprintf (stderr, "no probe\n"); return 2; }
   /* the programs the probe inherits stay loaded, as they would in a running driver */
